@@ -7,7 +7,8 @@
    structure of exp (exp 0 = 1, reciprocal for negative arguments, scaling into
    [0,1], the series stops by itself long before the cap of 1000 terms,
    positivity and range), the domain of ln and the special cases of pow. *)
-From PV Require Import Lib.Base Fixed.Model Fixed.Proofs C15.Proofs.
+From Coq Require Import QArith.
+From PV Require Import Lib.Base Fixed.Model Fixed.Proofs C15.Proofs C15.ErrorBound.
 Open Scope Z_scope.
 
 Theorem scale_is_floor : forall a, scale a = a / PREC /\ scale a * PREC <= a < (scale a + 1) * PREC.
@@ -45,6 +46,22 @@ Theorem exp_range : forall x,
   0 <= ref_exp x /\ (0 <= x -> ONE <= ref_exp x) /\ (x <= 0 -> ref_exp x <= ONE) /\
   0 <= ref_exp_iterations x <= 24.
 Proof. exact exp_range_proof. Qed.
+
+(* Error-bound component (exact rational arithmetic, no Reals): on [0,1] the value returned by the
+   Taylor loop lies at most 3n units (n <= 24 terms: < 7.2e-33) below the exact rational partial sum
+   qsum x n = 10^34 * sum_{k<=n} (x/10^34)^k / k!, never above it, and the first omitted exact term
+   is below EPS + 3 units (1e-24).
+   FULL STATEMENT NOT PROVED (exp_error, kept as a comment):
+     forall x, |ref_exp x - e^(x/10^34) * 10^34| <= ceil|x/10^34| * 3e-24 * e^(x/10^34) * 10^34 + 3
+   missing: the analytic tail e^x - S_n(x) <= 2 * x^(n+1)/(n+1)! (needs Reals/Coquelicot) and the
+   propagation of the relative error through ipow and the final division; the harness oracle checks
+   exactly this bound against an independent 90-digit computation on every run. *)
+Theorem exp_taylor_partial_sum_partial : forall x, 0 <= x <= ONE ->
+  exists n, snd (mp_exp_taylor 1000 x EPS) = Z.of_nat n /\ (n <= 24)%nat /\
+    (inject_Z (fst (mp_exp_taylor 1000 x EPS)) <= qsum x n /\
+     qsum x n <= inject_Z (fst (mp_exp_taylor 1000 x EPS)) + 3 * inject_Z (Z.of_nat n))%Q /\
+    (qterm x (S n) < inject_Z EPS + 3)%Q.
+Proof. exact exp_taylor_partial_sum_proof. Qed.
 
 Theorem ln_domain : forall x, ref_ln x = None <-> x <= 0.
 Proof. exact ln_domain_proof. Qed.
